@@ -103,6 +103,7 @@ def parse_obs(path):
             elif t == 'IDX': blk['idx'] = _pairs(f[1:])
             elif t == 'UBQ': blk['ubq'] = f[1:]
             elif t == 'PEND': blk['pend'] = [x.split(':') for x in f[1:]]
+            elif t == 'PQRY': blk['pqry'] = [x.split(':') for x in f[1:]]
             elif t == 'UPDC': blk['updc'] = [int(x) for x in f[1:]]
             elif t == 'POOL': blk['pool'] = (int(f[1]), int(f[2]), int(f[3]))
             elif t == 'PAR': blk['par'] = f[1:]
@@ -131,7 +132,7 @@ def successful_leaves(opsblk, obsblk):
 
 def params_valid(a):
     unbond, maxv, maxe, hist, denom, minc = int(a[0]), int(a[1]), int(a[2]), int(a[3]), int(a[4]), int(a[5])
-    return unbond > 0 and maxv > 0 and maxe > 0 and hist >= 0 and denom != 2 and 0 <= minc <= E18
+    return unbond > 0 and maxv > 0 and maxe > 0 and hist >= 0 and denom < 2 and 0 <= minc <= E18
 
 Viol = collections.namedtuple('Viol', 'hist height kind detail')
 
@@ -405,6 +406,14 @@ def oracle_C14(hi, ops, obs):
                 out.append(Viol(hi, b['h'], 'below-minimum-not-rejected', f"tx {i} power {P} -> {res}"))
             if op >= 0 and P >= 2**63 and res == 'ok':
                 out.append(Viol(hi, b['h'], 'int64-overflow-accepted', f"tx {i} power {P}"))
+            # a request that would not change the voting power is rejected (judged on the first message that touches
+            # the validator in the block, where the power before it is the observed one)
+            pv = prev['vals'].get(op) if prev['vals'] else None
+            touched = any(int(lf.args[0]) == op for t2 in ob['txs'][:i] for m2 in t2['msgs'] for lf in m2.flat()
+                          if lf.kind in ('SETPOWER', 'REMOVE', 'UNJAIL') and lf.args and lf.args[0].lstrip('-').isdigit())
+            if res == 'ok' and pv is not None and pv['status'] == 3 and not pv['jailed'] and pv['last'] is not None and not touched \
+                    and PR <= P < 2**63 and P // PR == pv['last']:
+                out.append(Viol(hi, b['h'], 'same-power-accepted', f"tx {i} op {op} power {P} (voting power stays {pv['last']})"))
         if b['halt'] or not b['vals']: continue
         # exact conversion for the last successful assignment of each validator in the block
         final = {}
@@ -417,6 +426,29 @@ def oracle_C14(hi, ops, obs):
             pv = prev['vals'].get(op) if prev['vals'] else None
             if v['tokens'] != P or v['shares'] != P * E18 or v['self'] != P * E18:
                 out.append(Viol(hi, b['h'], 'amount-not-exact', f"op {op} requested {P} tokens {v['tokens']} shares {v['shares']} self {v['self']}"))
+    return out
+
+def oracle_C15(hi, ops, obs):
+    """full application: an accepted CreateValidator satisfies x/staking's commission rules, the chain minimum included"""
+    out = []
+    for j, b in enumerate(obs):
+        if j == 0 or (b['halt'] and not b['txr']): continue
+        ob = ops['blocks'][j-1]
+        prev = obs[j-1]
+        if 'par' not in prev: continue
+        minc = int(prev['par'][5])
+        for i, tx in enumerate(ob['txs']):
+            if i >= len(b['txr']): break
+            leaves = [lf for m in tx['msgs'] for lf in m.flat()]
+            if any(lf.kind == 'PARAMS' for lf in leaves): break   # the minimum may have moved: judge no later message of this block
+            if b['txr'][i] != 'ok': continue
+            for lf in leaves:
+                if lf.kind != 'CREATE': continue
+                rate, maxr, maxc = int(lf.args[7]), int(lf.args[8]), int(lf.args[9])
+                if rate < minc:
+                    out.append(Viol(hi, b['h'], 'rate-below-chain-minimum-accepted', f"tx {i} rate {rate} minimum {minc}"))
+                elif not (0 <= rate <= maxr <= E18 and 0 <= maxc <= maxr):
+                    out.append(Viol(hi, b['h'], 'invalid-commission-accepted', f"tx {i} rate {rate} max {maxr} change {maxc}"))
     return out
 
 def oracle_C16(hi, ops, obs):
@@ -466,6 +498,11 @@ def oracle_C18(hi, ops, obs):
                     out.append(Viol(hi, b['h'], 'query-differs-from-cometbft', f"op {op} query {q} comet {b['comet'].get(v['key'], 0)}"))
         if b.get('auth') != '1':
             out.append(Viol(hi, b['h'], 'authority-query', str(b.get('auth'))))
+        if 'pqry' in b and 'pend' in b:
+            if b['pqry'] != b['pend']:
+                out.append(Viol(hi, b['h'], 'pending-query-differs-from-committed-list', f"query {b['pqry']} committed {b['pend']}"))
+            elif any(x[1] == '-1' for x in b['pqry']) and not any(x[1] == '-1' for x in b['pend']):
+                out.append(Viol(hi, b['h'], 'pending-query-key-unusable', str(b['pqry'])))
         if out: break
     return out
 
@@ -598,7 +635,7 @@ def _with_genesis(f):
 ORACLES = {
     'C07': oracle_C07, 'C08': oracle_C08, 'C09': oracle_C09,
     'C01': oracle_C01, 'C02': oracle_C02, 'C03': oracle_C03, 'C04': oracle_C04, 'C05': oracle_C05,
-    'C10': oracle_C10, 'C11': oracle_C11, 'C13': oracle_C13, 'C14': oracle_C14, 'C16': oracle_C16, 'C18': oracle_C18,
+    'C10': oracle_C10, 'C11': oracle_C11, 'C13': oracle_C13, 'C14': oracle_C14, 'C15': oracle_C15, 'C16': oracle_C16, 'C18': oracle_C18,
 }
 
 ORACLES = {k: _with_genesis(f) for k, f in ORACLES.items()}
